@@ -12,10 +12,13 @@ import (
 	"os"
 	"path/filepath"
 	"reflect"
+	"regexp"
 	"runtime"
 	"sort"
+	"strings"
 	"sync"
 	"testing"
+	"time"
 
 	"jetverif/core"
 	"jetverif/jetrun"
@@ -61,7 +64,14 @@ func c11Fixed(fields []string) map[string]string {
 		"/fx/child2.jet": `{{ extends "/fx/layout.jet" }}{{ import "/fx/lib2.jet" }}`,
 		"/fx/lib2.jet":   `{{ block body() }}body-of-lib2{{ end }}{{ block extra() }}x{{ end }}`,
 		"/fx/child3.jet": `{{ extends "/fx/layout.jet" }}`,
-		"/fx/fail.jet":   `before{{ range xs }}{{ .NoField }}{{ end }}after`,
+		// channels (a fresh pair for every execution) between ranges over maps and slices: every kind of pooled cursor
+		"/fx/chans.jet": `{{ range ch }}{{ . }},{{ end }}{{ range k, v := m1 }}{{ k }}:{{ v }};{{ end }}{{ range chs }}{{ . }}{{ range k, v := m1 }}{{ k }}{{ end }}{{ end }}{{ range i, v := xs }}{{ v }}{{ end }}{{ range k, v := m0 }}{{ k }}{{ else }}no-m{{ end }}`,
+		// descriptions of named variables (globals that no goroutine changes, a block, an unknown name)
+		"/fx/dumpnamed.jet": `{{ import "/fx/lib.jet" }}{{ dump("g_read", "xs", "box", "noSuchName") }}{{ dump("arr") }}`,
+		// description of everything, globals included: what it prints depends on what has been added so far, so it
+		// is executed but not compared
+		"/fx/dumpall.jet": `{{ dump() }}{{ dump(1) }}`,
+		"/fx/fail.jet":    `before{{ range xs }}{{ .NoField }}{{ end }}after`,
 		// ranges that find nothing (else branch) next to ranges over the same kinds that do
 		"/fx/emptyrange.jet": `{{ range xs0 }}x{{ else }}no-xs{{ end }}{{ range k, v := m0 }}{{ k }}{{ else }}no-m{{ end }}{{ range i, v := xs }}{{ i }}={{ v }};{{ end }}{{ range k, v := m1 }}{{ k }}:{{ v }};{{ end }}{{ range xs0 }}x{{ else }}{{ range xs }}{{ . }}{{ end }}{{ end }}`,
 		// try inside try inside try, each with output of its own that depends on the data
@@ -179,7 +189,24 @@ type c11Result struct {
 func (w *c11World) exec(name string, data int) c11Result {
 	t, o := jetrun.Get(w.set, name)
 	if !o.Failed() {
-		o = jetrun.Exec(t, nil, w.data[data])
+		var vars jet.VarMap
+		if name == "/fx/chans.jet" {
+			ch, chs := make(chan int, 3), make(chan string, 2)
+			ch <- 1
+			ch <- 0
+			ch <- 2
+			chs <- "p"
+			chs <- "q"
+			close(ch)
+			close(chs)
+			vars = jet.VarMap{}
+			vars.Set("ch", ch)
+			vars.Set("chs", (<-chan string)(chs))
+		}
+		o = jetrun.Exec(t, vars, w.data[data])
+	}
+	if name == "/fx/dumpall.jet" {
+		o.Out = "(not compared)"
 	}
 	r := c11Result{out: o.Out, failed: o.Failed()}
 	if o.Panicked {
@@ -274,7 +301,10 @@ func judgeC11(c c11Case) (v core.Verdict) {
 			}(wi, ops)
 		}
 		close(start)
-		wg.Wait()
+		if stuck := c11Wait(&wg); stuck != "" {
+			v.Failf("the goroutines block each other for good (all that are left wait for a lock, twice the same picture 10 s apart): %s (dev=%v, workers %+v)", stuck, c.Dev, c.Workers)
+			return
+		}
 		// every global that was added is there afterwards, whatever overlapped with the call that added it
 		for wi, ops := range c.Workers {
 			for _, op := range ops {
@@ -310,6 +340,61 @@ func judgeC11(c c11Case) (v core.Verdict) {
 		v.Failf("%s (dev=%v, templates %q)", problem, c.Dev, c.Src)
 	}
 	return
+}
+
+// c11Wait waits for the workers. A mix takes milliseconds; when it has not finished after half a minute the
+// goroutine dump is looked at: if every goroutine that is still inside the engine waits for a lock, and the same
+// holds 10 s later with the same goroutines at the same places, nobody is left who could release one: deadlock.
+// Anything else (slow machine) keeps waiting.
+func c11Wait(wg *sync.WaitGroup) string {
+	done := make(chan struct{})
+	go func() { wg.Wait(); close(done) }()
+	picture := func() (string, bool) {
+		buf := make([]byte, 1<<22)
+		buf = buf[:runtime.Stack(buf, true)]
+		var waiting []string
+		for _, g := range strings.Split(string(buf), "\n\n") {
+			if !strings.Contains(g, "github.com/CloudyKit/jet/v6.") {
+				continue
+			}
+			head := g[:strings.Index(g+"\n", "\n")]
+			if !(strings.Contains(head, "sync.RWMutex") || strings.Contains(head, "sync.Mutex") || strings.Contains(head, "semacquire")) {
+				return "", false // somebody inside the engine is running or waiting for something else
+			}
+			at := ""
+			for _, l := range strings.Split(g, "\n") {
+				if strings.HasPrefix(l, "github.com/CloudyKit/jet/v6.") {
+					at = l
+					break
+				}
+			}
+			waiting = append(waiting, strings.Fields(head)[1]+" "+head[strings.Index(head, "["):]+" in "+at)
+		}
+		sort.Strings(waiting)
+		return strings.Join(waiting, "; "), len(waiting) > 0
+	}
+	strip := regexp.MustCompile(`, \d+ minutes`)
+	limit := 30 * time.Second
+	for {
+		select {
+		case <-done:
+			return ""
+		case <-time.After(limit):
+		}
+		limit = 10 * time.Second
+		p1, all1 := picture()
+		if !all1 {
+			continue
+		}
+		select {
+		case <-done:
+			return ""
+		case <-time.After(10 * time.Second):
+		}
+		if p2, all2 := picture(); all2 && strip.ReplaceAllString(p1, "") == strip.ReplaceAllString(p2, "") {
+			return p2
+		}
+	}
 }
 
 func mustJSON(x interface{}) json.RawMessage {
